@@ -290,6 +290,14 @@ fn check_regex(rep: &mut Report, w: &W, range: Option<R>, patterns: &[&str], all
                         rep.fail("oracle", &format!("find_text_regex/{}/multi-order", cls), ctx.clone(), "results in order of position", &format!("{:?}", got_all));
                     }
                 }
+                // the documented contract of allow_overlap=false ("determines if the matching expressions are allowed to overlap"):
+                // no result begins inside an earlier result (expressions without capture groups: the selection is the match)
+                if !allow_overlap && exprs.iter().all(|r| r.captures_len() == 1) {
+                    for k in 1..ms.len() {
+                        let (p, n) = (ms[k - 1].2[0], ms[k].2[0]);
+                        if n.0 >= p.0 && n.0 < p.1 { rep.fail("oracle", &format!("find_text_regex/{}/multi-overlap", cls), ctx.clone(), "no result begins inside an earlier one (allow_overlap=false)", &format!("{:?} then {:?} in {:?}", p, n, got_all)); break; }
+                    }
+                }
                 let mut last = 0usize;
                 for m in ms {
                     let re = &exprs[m.0];
@@ -463,7 +471,7 @@ pub fn run(opts: &Opts) -> Report {
     let needles = ["a", "b", " ", "\u{e9}", "\u{1F600}", "ab", "a ", "aa", "\u{130}", "A"];
     let delims = [" ", "a", "\u{e9}", "ab", "  ", "\u{1F600}"];
     let trimsets: [&[char]; 4] = [&[' '], &['a', ' '], &['\u{e9}', '\u{1F600}'], &['a', 'A', 'b', '\u{e9}', '\u{130}', ' ', '\u{1F600}']];
-    let regexes = ["[a-z]+", "a(b)?", "(a)(b)", "\\s+", "\u{e9}|\u{1F600}", "(?i)a+", "(\\w)\\s(\\w)", "b*", "(\\w+) (\\w+)", "\\w (\\w)", "a b", "\\w \\w"];
+    let regexes = ["[a-z]+", "a(b)?", "(a)(b)", "\\s+", "\u{e9}|\u{1F600}", "(?i)a+", "(\\w)\\s(\\w)", "b*", "(\\w+) (\\w+)", "\\w (\\w)", "a b", "\\w \\w", "[ab]", "\\w", "[a-zA-Z ]+", "(a)?(b)", "(a)|(b)", "(\u{e9})?( )?(\\w)"];
     for (ti, text) in texts.iter().enumerate() {
         let n = text.chars().count();
         // known selections for segmentation
